@@ -148,7 +148,7 @@ func runC03(c *rt.Ctx) {
 									if proto == "text" && !c.Thorough() && (p0 != 0 || p1 != 1 || iname != "both") {
 										continue
 									}
-									sc := ConcScenario{Harness: "C03", Cfg: cfg, Init: init, Threads: []ConcThread{{Port: p0, Ops: []wire.Op{o0}}, {Port: p1, Ops: []wire.Op{o1}}}}
+									sc := ConcScenario{Harness: "C03", Advances: 1, Cfg: cfg, Init: init, Threads: []ConcThread{{Port: p0, Ops: []wire.Op{o0}}, {Port: p1, Ops: []wire.Op{o1}}}}
 									explore(sc, -1)
 								}
 							}
@@ -180,7 +180,7 @@ func runC03(c *rt.Ctx) {
 						if c.Expired() {
 							return
 						}
-						sc := ConcScenario{Harness: "C03", Cfg: cfg, Init: ni.Ops, Threads: []ConcThread{{Port: ports[0], Ops: []wire.Op{o0}}, {Port: ports[1], Ops: []wire.Op{o1}}}}
+						sc := ConcScenario{Harness: "C03", Advances: 1, Cfg: cfg, Init: ni.Ops, Threads: []ConcThread{{Port: ports[0], Ops: []wire.Op{o0}}, {Port: ports[1], Ops: []wire.Op{o1}}}}
 						explore(sc, 2)
 					}
 				}
@@ -213,7 +213,7 @@ func runC03(c *rt.Ctx) {
 					a2.Val += "x"
 					b2 := b
 					b2.Val += "x"
-					sc := ConcScenario{Harness: "C03", Cfg: cfg, Init: init, Threads: []ConcThread{{Port: 0, Ops: []wire.Op{a, b}}, {Port: 1, Ops: []wire.Op{b2, a2}}}}
+					sc := ConcScenario{Harness: "C03", Advances: 1, Cfg: cfg, Init: init, Threads: []ConcThread{{Port: 0, Ops: []wire.Op{a, b}}, {Port: 1, Ops: []wire.Op{b2, a2}}}}
 					bound := 2
 					if c.Thorough() {
 						bound = 3
@@ -238,7 +238,7 @@ func runC03(c *rt.Ctx) {
 					if item%2 == 0 {
 						rd = wire.Op{Kind: "mget", Keys: []string{k2, k1}, Quiet: []bool{true, true}, NoopEnd: true}
 					}
-					sc := ConcScenario{Harness: "C03", Cfg: cfg, Init: init, Threads: []ConcThread{{Port: 0, Ops: []wire.Op{a}}, {Port: 1, Ops: []wire.Op{b}}, {Port: 0, Ops: []wire.Op{rd}}}}
+					sc := ConcScenario{Harness: "C03", Advances: 1, Cfg: cfg, Init: init, Threads: []ConcThread{{Port: 0, Ops: []wire.Op{a}}, {Port: 1, Ops: []wire.Op{b}}, {Port: 0, Ops: []wire.Op{rd}}}}
 					explore(sc, 2)
 				}
 			}
@@ -269,7 +269,7 @@ func runC03(c *rt.Ctx) {
 						if c.Expired() {
 							return
 						}
-						sc := ConcScenario{Harness: "C03", Cfg: cfg, Init: initStates("a")[2].Ops, Threads: []ConcThread{
+						sc := ConcScenario{Harness: "C03", Advances: 1, Cfg: cfg, Init: initStates("a")[2].Ops, Threads: []ConcThread{
 							{Port: ports[0], Ops: []wire.Op{rd, o0}}, {Port: ports[1], Ops: []wire.Op{rd, o1}}}}
 						bound := 2
 						if c.Thorough() {
@@ -296,7 +296,7 @@ func runC03(c *rt.Ctx) {
 						if c.Expired() {
 							return
 						}
-						sc := ConcScenario{Harness: "C03", Cfg: cfg, Init: initStates("a")[2].Ops, Threads: []ConcThread{
+						sc := ConcScenario{Harness: "C03", Advances: 1, Cfg: cfg, Init: initStates("a")[2].Ops, Threads: []ConcThread{
 							{Port: ports[0], Ops: []wire.Op{o0, {Kind: "get", Key: "a"}}}, {Port: ports[1], Ops: []wire.Op{o1, {Kind: "gat", Key: "a", TTL: 0}}}}}
 						explore(sc, 3)
 					}
